@@ -2786,6 +2786,43 @@ func RPrescanSib(c *core.Ctx) {
 			return out
 		}
 		ord := 0
+		// what follows an `if mode { …; return }` in its statement list is the other side of the branch
+		restOf := map[*ast.IfStmt][]ast.Stmt{}
+		var lists func(n ast.Node)
+		lists = func(n ast.Node) {
+			ast.Inspect(n, func(x ast.Node) bool {
+				var list []ast.Stmt
+				switch b := x.(type) {
+				case *ast.BlockStmt:
+					list = b.List
+				case *ast.CaseClause:
+					list = b.Body
+				}
+				for i, st := range list {
+					if ifs, ok := st.(*ast.IfStmt); ok && ifs.Else == nil && modeTest(info, ifs.Cond, mode) != 0 && len(ifs.Body.List) > 0 {
+						switch l := ifs.Body.List[len(ifs.Body.List)-1].(type) {
+						case *ast.ReturnStmt:
+							restOf[ifs] = list[i+1:]
+						case *ast.BranchStmt:
+							if l.Tok == token.CONTINUE || l.Tok == token.BREAK {
+								restOf[ifs] = list[i+1:]
+							}
+						}
+					}
+				}
+				return true
+			})
+		}
+		lists(fd.Body)
+		moversOfList := func(list []ast.Stmt) map[string]int {
+			out := map[string]int{}
+			for _, st := range list {
+				for k, v := range movers(st) {
+					out[k] += v
+				}
+			}
+			return out
+		}
 		ast.Inspect(fd.Body, func(x ast.Node) bool {
 			ifs, ok := x.(*ast.IfStmt)
 			if !ok {
@@ -2800,10 +2837,14 @@ func RPrescanSib(c *core.Ctx) {
 			if ifs.Else != nil {
 				elseNode = ifs.Else
 			}
+			other := movers(elseNode)
+			if rest, ok := restOf[ifs]; ok {
+				other = moversOfList(rest)
+			}
 			if pol < 0 { // if !scanOnly { main } else { prescan }
-				a, b = movers(ifs.Body), movers(elseNode)
+				a, b = movers(ifs.Body), other
 			} else {
-				a, b = movers(elseNode), movers(ifs.Body)
+				a, b = other, movers(ifs.Body)
 			}
 			if len(a) == 0 && len(b) == 0 {
 				return true
